@@ -229,12 +229,63 @@ func (r *runner) waitGate(point string, n int) {
 	defer timer.Stop()
 	r.mu.Lock()
 	defer r.mu.Unlock()
+	extended := false
 	for r.gates[point] < n {
 		if time.Now().After(deadline) {
+			if ext := patienceIf(!extended); ext > 0 {
+				extended = true
+				deadline = time.Now().Add(ext)
+				t2 := time.AfterFunc(ext, func() { r.mu.Lock(); r.cond.Broadcast(); r.mu.Unlock() })
+				defer t2.Stop()
+				continue
+			}
 			slowBudget.Spent()
 			return
 		}
 		r.cond.Wait()
+	}
+	if extended {
+		slowBudget.PatienceBack()
+	}
+}
+
+func patienceIf(first bool) time.Duration {
+	if !first {
+		return 0
+	}
+	return slowBudget.Patience()
+}
+
+// waitStopCancelled waits (bounded) until a Stop call has passed its cancellation point or has returned
+func (r *runner) waitStopCancelled(before int, ret chan struct{}) {
+	deadline := time.Now().Add(slowBudget.Timeout())
+	extended := false
+	defer func() {
+		if extended && time.Now().Before(deadline) {
+			slowBudget.PatienceBack()
+		}
+	}()
+	for {
+		r.mu.Lock()
+		n := r.gates["stop.cancelled"]
+		r.mu.Unlock()
+		if n > before {
+			return
+		}
+		select {
+		case <-ret:
+			return
+		case <-time.After(200 * time.Microsecond):
+		}
+		if time.Now().After(deadline) {
+			if ext := patienceIf(!extended); ext > 0 {
+				extended = true
+				deadline = time.Now().Add(ext)
+				continue
+			}
+			slowBudget.Spent()
+			return
+		}
 	}
 }
 
@@ -299,6 +350,7 @@ func (r *runner) waitFor(exp []sEvent) {
 	defer timer.Stop()
 	r.mu.Lock()
 	defer r.mu.Unlock()
+	extended := false
 	for {
 		ok := true
 		for k, n := range need {
@@ -310,9 +362,22 @@ func (r *runner) waitFor(exp []sEvent) {
 			}
 		}
 		if ok {
+			if extended {
+				slowBudget.PatienceBack()
+				if os.Getenv("VERIF_DEBUG") != "" {
+					fmt.Fprintf(os.Stderr, "SLOW scen=%d: %v came in the second waiting period\n", r.scen.ID, need)
+				}
+			}
 			return
 		}
 		if time.Now().After(deadline) {
+			if ext := patienceIf(!extended); ext > 0 {
+				extended = true
+				deadline = time.Now().Add(ext)
+				t2 := time.AfterFunc(ext, func() { r.mu.Lock(); r.cond.Broadcast(); r.mu.Unlock() })
+				defer t2.Stop()
+				continue
+			}
 			slowBudget.Spent()
 			if os.Getenv("VERIF_DEBUG") != "" {
 				fmt.Fprintf(os.Stderr, "TIMEOUT scen=%d waiting for %v\n", r.scen.ID, need)
@@ -828,7 +893,7 @@ func (r *runner) step(e sEvent) {
 			select {
 			case <-cl.parked:
 			case <-cl.done:
-			case <-time.After(3 * time.Second):
+			case <-time.After(20 * time.Second):
 			}
 			r.emit(tEvent{Ev: "stopreading", C: e.C})
 		}
@@ -870,7 +935,12 @@ func (r *runner) step(e sEvent) {
 		ch := make(chan struct{})
 		r.mu.Lock()
 		r.stopRet[e.S] = ch
+		cancelled0 := r.gates["stop.cancelled"]
 		r.mu.Unlock()
+		// In the model the server's own steps come before the environment's next action: this Stop has closed the listener
+		// and cancelled (or returned) before the runner goes on. Without this a runner that is faster than the goroutine
+		// calling Stop releases a handler "after Stop" that the server sees before Stop (synchronisation only).
+		defer r.waitStopCancelled(cancelled0, ch)
 		if r.scen.Cfg["stop_storm"] == "1" {
 			// clients connecting at the very moment Stop is called (connections of the harness itself, not of the model:
 			// they are closed at once; only Stop's and Run's return are judged in these scenarios)
@@ -1060,7 +1130,7 @@ func runScenario(sc *sScenario, out *hx.Out, seed int64, tlsSrv, tlsCli *tls.Con
 	}
 	cfgJSON, _ := json.Marshal(sc.Cfg)
 	gldap.SetVerifGate(func(point string, ids ...int) {
-		if point == "run.registered" || point == "run.accepted" || point == "write.locked" {
+		if point == "run.registered" || point == "run.accepted" || point == "write.locked" || point == "stop.cancelled" {
 			r.mu.Lock()
 			r.gates[point]++
 			r.cond.Broadcast()
